@@ -37,6 +37,20 @@ def children_loads(f):
     return out
 
 
+def rule_clear_guard(ctx, v, rule):
+    """the exit walk resets a value slot only for a key that has a destructor (POSIX: the value of a key without a destructor stays
+    readable while the other destructors of the exiting thread run, e.g. a context key read by the destructor of a buffer key)"""
+    f = ctx.need_fn(v, 'myth_tls_call_destructors_rec')
+    clr = [st for st in f.stores_to('myth_tls_entry.value') if isinstance(st.ops[0], dict) and (st.ops[0].get('null') or st.ops[0].get('c') == 0)]
+    dl = [l for l in f.order if l.op == 'load' and f.field(l) == 'myth_tls_key_entry.destructor']
+    ctx.ob(rule, 'exit walk: reads the destructor of the key and resets the slot', len(clr) >= 1 and len(dl) >= 1,
+           'value = 0 before destructor(value)', loc=f.loc)
+    for st in clr:
+        ctx.ob(rule, 'exit walk: a slot is reset only where its key has a destructor',
+               any(lib.guarded_by_nonnull(f, l.id, st) for l in dl),
+               'the store of NULL into the slot is on the destructor != NULL edge', loc=st.loc)
+
+
 def rule123_walk(ctx, v):
     ctx.doc('C11.1', 'sparse traversal: in myth_tls_call_destructors_rec and myth_tls_tree_destroy_rec the loop over children[] '
             'continues on an empty child (null edge stays in the loop, reaches the latch) and visits all 4 children')
@@ -325,6 +339,7 @@ def run(ctx):
         ctx.attempt(rule123_walk, ctx, v)
         ctx.attempt(rule1_free, ctx, v)
         ctx.attempt(rule4_leaf, ctx, v)
+        ctx.attempt(rule_clear_guard, ctx, v, 'C11.4')
         ctx.attempt(rule4_delete, ctx, fl)
         ctx.attempt(rule5_terminations, ctx, fl)
         from . import c10
